@@ -87,7 +87,8 @@ func (i *Ignore) IsIncluded(path string, index *Index) bool {
 		// a pattern applies to whole path components: '.goit/' must not hide 'x.goit/'.
 		// regexp works on UTF-8 text but a file name is any bytes: pattern and path are both
 		// matched byte by byte, an entry naming 'r\xe9sum\xe9/' must not be an invalid expression
-		exRegexp := regexp.MustCompile("(^|/)" + bytesAsRunes(exFile))
+		// ('.' and '.*' stand for any byte, a line break in a file name included)
+		exRegexp := regexp.MustCompile("(?s)(^|/)" + bytesAsRunes(exFile))
 		if exRegexp.MatchString(bytesAsRunes(target)) {
 			return true
 		}
